@@ -93,7 +93,11 @@ class FakeSocket:
         q = self.errq if flags & socknumbers.MSG_ERRQUEUE else self.rx
         if not q:
             raise BlockingIOError()
-        return q.pop(0)
+        data, anc, fl, addr = q.pop(0)
+        if len(data) > bufsize:
+            # what the kernel does with a datagram that does not fit the buffer it was given: cut it, say so in the flags
+            data, fl = data[:bufsize], fl | socket.MSG_TRUNC
+        return data, anc, fl, addr
 
     def sendmsg(self, buffers, ancdata=(), flags=0, address=None):
         if self.closed:
